@@ -205,6 +205,32 @@ fn request_on(mut s: TcpStream, path: &str, deadline: Duration) -> Result<Resp, 
     Ok(Resp { status, body })
 }
 
+/// Reads exactly one HTTP/1.1 response (headers, then Content-Length body bytes) and leaves the connection open.
+fn read_one_response(s: &mut TcpStream, deadline: Duration) -> Result<Resp, String> {
+    s.set_read_timeout(Some(deadline)).ok();
+    let t0 = Instant::now();
+    let mut buf: Vec<u8> = Vec::new();
+    loop {
+        if let Some(hdr_end) = buf.windows(4).position(|w| w == b"\r\n\r\n") {
+            let head = String::from_utf8_lossy(&buf[..hdr_end]).to_string();
+            let status: u16 = head.split(' ').nth(1).and_then(|x| x.parse().ok()).ok_or_else(|| format!("no status in {:?}", head))?;
+            let cl = head.lines().find_map(|l| l.to_ascii_lowercase().strip_prefix("content-length:").map(|v| v.trim().parse::<usize>().unwrap_or(usize::MAX))).ok_or_else(|| format!("no content-length in {:?}", head))?;
+            if buf.len() >= hdr_end + 4 + cl {
+                return Ok(Resp { status, body: buf[hdr_end + 4..hdr_end + 4 + cl].to_vec() });
+            }
+        }
+        let mut chunk = [0u8; 8192];
+        match s.read(&mut chunk) {
+            Ok(0) => return Err(format!("connection closed after {} bytes", buf.len())),
+            Ok(n) => buf.extend_from_slice(&chunk[..n]),
+            Err(e) => return Err(format!("no complete response within {:?}: {}", t0.elapsed(), e)),
+        }
+        if t0.elapsed() > deadline {
+            return Err(format!("no complete response within {:?}", deadline));
+        }
+    }
+}
+
 fn free_port() -> u16 {
     std::net::TcpListener::bind("127.0.0.1:0").and_then(|l| l.local_addr()).map(|a| a.port()).unwrap_or(0)
 }
@@ -340,6 +366,35 @@ pub fn case_scrape(bytes: &[u8], _s: &[u8], ctx: &mut Ctx) -> Result<(), Fail> {
                     let got = fams.iter().find(|f| f.name == "canary_total").and_then(|f| f.samples.first()).map(|s| (s.3.clone(), s.1.clone()));
                     let want_labels = vec![("svc".to_string(), "c18".to_string()), ("k".to_string(), "v\"q".to_string())];
                     ensure!(got == Some((value.to_string(), want_labels.clone())), "scrape-not-current-rendering", "path {:?}: canary renders {:?}, its value at request time is {} with labels {:?}", p.path, got, value, want_labels);
+                }
+            }
+        }
+        // one connection, two scrapes (HTTP/1.1 keep-alive), the metric changing in between: each response is the
+        // rendering at the time of ITS request
+        if let Some(src) = case.probes.iter().map(|p| p.src).find(|a| allowed(&case.entries, *a)) {
+            if let Ok(mut s) = connect_from(src, port) {
+                s.set_write_timeout(Some(deadline)).ok();
+                let canary_of = |body: &[u8]| -> Result<Option<String>, Fail> {
+                    let body = String::from_utf8_lossy(body).to_string();
+                    let lines = parse_prometheus(&body).map_err(|e| Fail::new("scrape-body-not-well-formed", format!("{} ; body {:?}", e, body)))?;
+                    let fams = prom_families(&lines).map_err(|e| Fail::new("scrape-body-family-structure", e))?;
+                    Ok(fams.iter().find(|f| f.name == "canary_total").and_then(|f| f.samples.first()).map(|x| x.3.clone()))
+                };
+                rec.register_counter(&canary, &META).increment(1);
+                value += 1;
+                let first = s.write_all(b"GET /metrics HTTP/1.1\r\nHost: localhost\r\n\r\n").map_err(|e| e.to_string()).and_then(|_| read_one_response(&mut s, deadline * 6));
+                if let Ok(r1) = first {
+                    ensure!(r1.status == 200 && canary_of(&r1.body)? == Some(value.to_string()), "scrape-not-current-rendering", "first scrape on a kept-alive connection from {}: status {}, canary {:?}, value at request time {}", src, r1.status, canary_of(&r1.body)?, value);
+                    rec.register_counter(&canary, &META).increment(3);
+                    value += 3;
+                    let second = s.write_all(b"GET /metrics HTTP/1.1\r\nHost: localhost\r\nConnection: close\r\n\r\n").map_err(|e| e.to_string()).and_then(|_| read_one_response(&mut s, deadline * 6));
+                    match second {
+                        Ok(r2) => {
+                            ctx.nontrivial("two-scrapes-on-one-connection");
+                            ensure!(r2.status == 200 && canary_of(&r2.body)? == Some(value.to_string()), "scrape-not-current-rendering", "second scrape on the same connection from {} (the counter was incremented by 3 after the first): status {}, canary {:?}, value at request time {}", src, r2.status, canary_of(&r2.body)?, value);
+                        }
+                        Err(_) => ctx.class("server-closed-the-connection-after-one-response"),
+                    }
                 }
             }
         }
